@@ -42,7 +42,7 @@ echo "tests: $TESTS"
 # the checks
 RES="{"
 for P in $PROPS; do
-  ( cd /verif && VERIF_REPO="$WT" VERIF_BUILD="$WT-build" VERIF_TMP=/tmp timeout 3000 ./check $P --tier quick >"$WT-demo/check_$P.out" 2>&1; echo $? >"$WT-demo/check_$P.rc" )
+  ( cd /verif && VERIF_REPO="$WT" VERIF_BUILD="$WT-build" VERIF_TMP=/tmp timeout 6000 ./check $P --tier ${TIER:-quick} >"$WT-demo/check_$P.out" 2>&1; echo $? >"$WT-demo/check_$P.rc" )
   RC=$(cat "$WT-demo/check_$P.rc")
   NV=$(grep -c "^VIOLATION" "$WT-demo/check_$P.out")
   FIRST=$(grep -m1 "^VIOLATION" "$WT-demo/check_$P.out" | cut -c1-400 | sed 's/"/\\"/g')
@@ -61,7 +61,8 @@ cat >"$OUT/meta.json" <<EOF
  "demo_flags": "$SAN $EXTRA",
  "repo_tests_with_change": "$TESTS",
  "repo_head": "$(git -C /repo log --format=%h -1)",
- "quick_checks": $RES,
+ "checks_run": $RES,
+ "tier": "${TIER:-quick}",
  "needs_to_manifest": "see notes.txt",
  "ran": "scripts/seed_verify.sh $SD $N $PROPS"
 }
